@@ -176,7 +176,7 @@ Section Safe.
     negb (String.eqb x EmptyString) &&
     match first_some (fun u => mm u (append x G)) flat with
     | Some (t, k) => Nat.eqb k (String.length x) && negb (ign_t t)
-                     && onat_eqb (name_index names (report m_cp (lx_terms L) t x)) (Some n)
+                     && onat_eqb (name_index names (report lower m_cp (lx_terms L) t x)) (Some n)
     | None => false
     end.
 
